@@ -117,6 +117,35 @@ def run(res, tier, replay):
         scns.append(sc); meta.append(("dmg-hist", 8000 + di, order))
         for m_ in range(len(lens)):
             scns.append(scenario.Scn().file("in0.cab", bytes(cab)).op("cab_new").op("cab_open", "c0", "in0.cab").op("cab_extract", "c0", m_, "ref")); meta.append(("dmg-ref", 8000 + di, m_))
+    # one decompressor used for two sets in a row (allocator that hands freed blocks out again): the first set is closed through its head
+    # while the data file read last belongs to a later part; nothing of it may reach the second set's members
+    for i in range(3 if tier == "quick" else 20):
+        from vlib import cabfmt
+        def two_part(tag):
+            # alternately: one folder split over both parts / one folder per part (the second part's member then lives wholly in the part read last)
+            if i % 2 == 0:
+                fos = [cabfmt.Folder(("none",), cabfmt.random_members(rng, 1, lens=[700])), cabfmt.Folder(("none",), cabfmt.random_members(rng, 1, lens=[900]))]
+                cuts = [(0, "end", 0)]
+            else:
+                fos = [cabfmt.Folder(("none",), cabfmt.random_members(rng, 2, lens=[9000, 9000]))]; cuts = [(0, 0, 12000)]
+            k_ = 0
+            for fo_ in fos:
+                fo_.prepare(rng)
+                for m_ in fo_.members: m_.name = b"%s%d.txt" % (tag, k_); k_ += 1
+            cabs, names = cabfmt.build_set(fos, cuts, rng, names=[b"%s1.cab" % tag, b"%s2.cab" % tag])
+            return fos, cabs
+        foA, cabsA = two_part(b"a"); foB, cabsB = two_part(b"b")
+        base2 = lambda: scenario.Scn().file("b0.cab", cabsB[0]).file("b1.cab", cabsB[1])
+        sc = scenario.Scn(); sc.lines.append("recycle 1"); sc.file("a0.cab", cabsA[0]).file("a1.cab", cabsA[1]).file("b0.cab", cabsB[0]).file("b1.cab", cabsB[1])
+        sc.op("cab_new").op("cab_open", "c0", "a0.cab").op("cab_open", "c1", "a1.cab").op("cab_append", "c0", "c1")
+        sc.op("cab_extract", "c0", 1, "oA").op("cab_close_any", "c0")
+        sc.op("cab_open", "c2", "b0.cab").op("cab_open", "c3", "b1.cab").op("cab_append", "c2", "c3")
+        order = [-1] + [[1, 0, 1], [1, 1, 0], [0, 1, 0]][i % 3]
+        for j, m_ in enumerate(order[1:]): sc.op("cab_extract", "c2", m_, "o%d_%d" % (j, m_))
+        scns.append(sc); meta.append(("two-hist", 9000 + i, order))
+        for m_ in range(2):
+            r_ = scenario.Scn(); r_.lines.append("recycle 1"); r_.file("b0.cab", cabsB[0]).file("b1.cab", cabsB[1]).op("cab_new").op("cab_open", "c2", "b0.cab").op("cab_open", "c3", "b1.cab").op("cab_append", "c2", "c3").op("cab_extract", "c2", m_, "ref")
+            scns.append(r_); meta.append(("two-ref", 9000 + i, m_))
     trs = scenario.run_scenarios(exe, scns)
     ref = {}
     for t, m in zip(trs, meta):
@@ -135,7 +164,7 @@ def run(res, tier, replay):
         for j, o in enumerate(ex):
             idx = int(o.kv["idx"]) if "idx" in o.kv else m[2][j]
             want = ref.get((m[0][:3], m[1], idx)); ncalls += 1
-            if m[0] in ("rcy-hist", "tny-hist", "dmg-hist"): idx = m[2][j]
+            if m[0] in ("rcy-hist", "tny-hist", "dmg-hist", "two-hist"): idx = m[2][j]
             fol = m[2][idx] if m[0] == "cab-hist" and idx < len(m[2]) else (0 if m[0] == "dmg-hist" else None)
             if want is None: continue
             if (o.kv.get("st"), o.out) != want:
